@@ -196,10 +196,15 @@ func (y *Yaml) GetMapKeys() ([]string, error) {
 	if err != nil {
 		return nil, err
 	}
-	keys := make([]string, 0)
-	for k := range m {
-		keys = append(keys, k)
-
+	// keys in document order (ranging over the map would make the order, and with it the
+	// names of generated variables, change from run to run)
+	keys := make([]string, 0, len(m))
+	seen := make(map[string]bool, len(m))
+	for i, n := range y.data.Content {
+		if i%2 == 0 && !seen[n.Value] {
+			seen[n.Value] = true
+			keys = append(keys, n.Value)
+		}
 	}
 	return keys, nil
 }
